@@ -902,7 +902,10 @@ fn case_crash_images(out: &mut CaseOut, tier: &str, seed: u64, idx: u64) {
         watch::tick();
         let image = replayer.image();
         let (acked, with) = exec.expected_at(k as u64);
-        let cfg = exec.cfg_at(k as u64 - 1);
+        // the instance that recovers draws its own log-reuse setting: one that takes the old
+        // manifest over creates no new one - and so does not happen to overwrite (and rename away)
+        // the scratch file a crashed CURRENT switch left behind
+        let cfg = Config { reuse: rng.chance(0.5), ..exec.cfg_at(k as u64 - 1) };
         let d = director();
         d.reset(rng.next_u64());
         let fs = SimFs::from_image(&image);
